@@ -13,6 +13,8 @@ for id in "$@"; do
     src=/tmp/mut-$id-out/$v
     [ -f $src/patch.diff ] || { echo "$id-$v: no patch" | tee -a $LOG; continue; }
     name=$id-$v
+    # second and later waves are imported under other letters: WAVE_MAP="a:c,b:d"
+    if [ -n "${WAVE_MAP:-}" ]; then nv=$(echo "$WAVE_MAP" | tr ',' '\n' | grep "^$v:" | cut -d: -f2); name=$id-${nv:-$v}; fi
     git -C $WT checkout -q -- . ; git -C $WT clean -fdq
     # 1. demo passes without the change
     demo=$src/demo/demo.sh
